@@ -207,13 +207,13 @@ U('compressed_search', fam_compressed, 'Compressed_search', ['C08', 'C16', 'C17'
 PLM_Q = [fam_plm.pinst('uint64_t'), fam_plm.pinst('int32_t', 'int32_t')]
 U('oplm_ctor', fam_plm, 'OPLM_ctor', ['C20', 'C17'], decls=['plm_ghost'], insts=PLM_Q, spec=('plm.spec',))
 U('oplm_reset', fam_plm, 'OPLM_reset', ['C03', 'C17'], decls=['plm_ghost'], insts=PLM_Q[:1], spec=('plm.spec',))
-U('oplm_add_point', fam_plm, 'OPLM_add_point', ['CXX_not_registered_yet'], assumed=['Slope_lt', 'Slope_gt', 'OPLM_cross'], decls=['plm_ghost'], insts=PLM_Q, spec=('plm.spec',),
+U('oplm_add_point', fam_plm, 'OPLM_add_point', ['C20', 'C03', 'C17'], assumed=['Slope_lt', 'Slope_gt', 'OPLM_cross'], decls=['plm_ghost'], insts=PLM_Q, spec=('plm.spec',),
   defines=['PGMV_STUB_SLOPE_CMP'], timeout=1800, partition=24, mem_gb=10, solver='kissat',
   assumptions=['Slope comparisons / cross products are replaced by unconstrained stubs: the control and memory-safety obligations hold for every outcome of the geometry',
                'geo-1/geo-2 (epsilon-accuracy and maximality of the hull) are checked only by the bounded native link'])
 
-# md_bigmin: contract kept in spec/md.spec (case split on the highest bit, unwind 34); under dfcc instrumentation every case ran out of memory (8 GB) at once,
-# unlike the plain-harness probe of the design round (77 s); not registered - bigmin stays an assumed contract of md_advance (DESIGN S.4)
+# md_bigmin: contract kept in spec/md.spec; under dfcc every case ran out of memory; as a plain harness proof (spec decl bigmin_harness) one of 64 highest-bit cases takes > 5 min and
+# needs a bit-level model of the _pdep_u64 intrinsic: not registered - bigmin stays an assumed contract of md_advance (DESIGN S.4)
 
 U('dyn_item_ctor', fam_dyn, 'Item_ctor', ['C20', 'C17'], decls=['dyn_ghost'], insts=DYN_Q, thorough_insts=DYN_ALL, spec=('dyn.spec',), assumptions=[DYN_NOTE])
 U('dyn_ctor', fam_dyn, 'Dyn_ctor', ['C20', 'C15', 'C17'], inline=['Dyn_ceil_log2', 'Dyn_ceil_log_base', 'Dyn_max_size', 'Dyn_level', 'Dyn_max_fully_allocated_level'],
